@@ -22,7 +22,10 @@ def grid():
     for n in ints:
         g.append((str(n), Fraction(n), {}))
     for a, b in [(1, 2), (-1, 2), (3, 4), (-7, 3), (2, 4), (6, 4), (4, 2), (0, 5), (32767, 32766), (-32766, 32767), (1, 32767), (7, 7),
-                 (1, 3), (-2, 3), (65537, 65536), (1, 65536), (2147483647, 2), (1, 2147483647)]:
+                 (1, 3), (-2, 3), (65537, 65536), (1, 65536), (2147483647, 2), (1, 2147483647),
+                 # neighbours whose cross products differ by 1 near 2^62, and the most negative numerator
+                 (2147483647, 2147483646), (2147483646, 2147483645), (-2147483647, 2147483646), (2147483645, 2147483646), (-2147483648, 2147483647),
+                 (-2147483648, 3)]:
         g.append(("%d/%d" % (a, b), Fraction(a, b), {"ratio_literal": True}))
     computed = [("(/ 1 -2)", Fraction(-1, 2)), ("(+ 1/2 1/2)", Fraction(1)), ("(- 1/2)", Fraction(-1, 2)), ("(/ 6 4)", Fraction(3, 2)),
                 ("(/ -6 -4)", Fraction(3, 2)), ("(* 2/3 3/2)", Fraction(1)), ("(/ 7 -7)", Fraction(-1)), ("(- 1/3 1/3)", Fraction(0)),
